@@ -16,6 +16,7 @@ import (
 	"math/big"
 	"os"
 	"path/filepath"
+	"runtime/debug"
 
 	"go.sia.tech/core/types"
 	"go.sia.tech/coreutils/chain"
@@ -40,7 +41,8 @@ type snapshot struct {
 	file    string // Bolt: the file copied at the commit
 	tip     string
 	tainted bool
-	ops     int // store operations performed before the commit
+	ops     int  // store operations performed before the commit
+	crash   bool // not a commit: the committed image as found changed between two commits
 }
 
 func encode(v types.EncoderTo) []byte {
@@ -88,6 +90,32 @@ func History(r *vh.Run, name string, t *chainx.Tree, ids *c02.IDs, decls map[int
 		}
 		snaps = append(snaps, s)
 	}
+	// the committed image may only change in Flush: compare it with the image snapshotted at the
+	// last Flush right before every Flush, after every store operation and after every AddBlocks.
+	// (An in-place edit of a value obtained from the database corrupts what a process that stops
+	// before the next commit would reopen; on Bolt the same write faults.)
+	corrupt := 0
+	checkCommitted := func(when string) {
+		if be.Committed == nil || len(snaps) == 0 {
+			return
+		}
+		last := snaps[len(snaps)-1]
+		if last.crash {
+			return
+		}
+		now := be.Committed()
+		d := kvx.DiffImage(last.img, now)
+		if d == "" {
+			return
+		}
+		corrupt++
+		c.Oracle("committed-image-changed-without-flush", "%s: the committed image differs from what Flush %d committed (%s): %s; a process stopping now reopens this image", when, last.n, last.tip, d)
+		// reopen it like a commit point, to show what the stop leads to
+		snaps = append(snaps, &snapshot{n: last.n, batch: curBatch, mid: true, img: now, tip: c02.DurableLine(t, now), tainted: last.tainted, ops: storeOps, crash: true})
+	}
+	rec.OnBeforeFlush = func() {
+		checkCommitted(fmt.Sprintf("before the Flush after %d store ops (batch %d)", storeOps, curBatch))
+	}
 	rig, err = c02.NewRig(c, t, ids, decls, rec)
 	if err != nil {
 		c.Oracle("newdbstore-failed", "%v", err)
@@ -106,6 +134,7 @@ func History(r *vh.Run, name string, t *chainx.Tree, ids *c02.IDs, decls map[int
 	}
 	rig.OnFlag = func() bool { inOp = false; return armed }
 	rig.OnAfter = func() {
+		checkCommitted(fmt.Sprintf("after store op %d (batch %d)", storeOps, curBatch))
 		// a commit taken inside this operation sees the store after it: it inherits the taint the
 		// operation's own revert may have caused
 		for k := len(snaps) - 1; k >= 0 && snaps[k].ops == storeOps; k-- {
@@ -113,10 +142,12 @@ func History(r *vh.Run, name string, t *chainx.Tree, ids *c02.IDs, decls map[int
 		}
 	}
 	rig.Durable = func() string {
-		if len(snaps) == 0 {
-			return "h 0 tip ?"
+		for k := len(snaps) - 1; k >= 0; k-- {
+			if !snaps[k].crash {
+				return snaps[k].tip
+			}
 		}
-		return snaps[len(snaps)-1].tip
+		return "h 0 tip ?"
 	}
 	rig.Prelude()
 	flushesBefore := rec.Flushes
@@ -127,7 +158,7 @@ func History(r *vh.Run, name string, t *chainx.Tree, ids *c02.IDs, decls map[int
 		res := rig.Submit(batch)
 		if res == "panic" {
 			if len(c.Fails) == 0 {
-				c.Oracle("addblocks-panic", "AddBlocks panicked on batch %v", batch)
+				c.Oracle("addblocks-panic", "AddBlocks panicked on batch %v: %s", batch, rig.PanicMsg)
 			}
 			break
 		}
@@ -142,6 +173,7 @@ func History(r *vh.Run, name string, t *chainx.Tree, ids *c02.IDs, decls map[int
 			c.Oracle("reorg-without-commit", "batch %d performed %d store operations and no Flush reached the database", i, n)
 		}
 		flushesBefore = rec.Flushes
+		checkCommitted(fmt.Sprintf("after AddBlocks of batch %d", i))
 		rig.CompareWithTwin(fmt.Sprintf("after batch %d", i))
 	}
 	finalTip := rig.Node.CM.Tip()
@@ -153,9 +185,16 @@ func History(r *vh.Run, name string, t *chainx.Tree, ids *c02.IDs, decls map[int
 	}
 
 	// reopen every commit point (sampled above maxReopen)
-	order := rng.Perm(len(snaps))
-	if len(order) > maxReopen {
-		order = order[:maxReopen]
+	var order []int
+	for k, s := range snaps {
+		if s.crash {
+			order = append(order, k) // always reopened
+		}
+	}
+	for _, k := range rng.Perm(len(snaps)) {
+		if !snaps[k].crash && len(order) < maxReopen {
+			order = append(order, k)
+		}
 	}
 	reopened, mids := 0, 0
 	for _, k := range order {
@@ -194,6 +233,10 @@ func History(r *vh.Run, name string, t *chainx.Tree, ids *c02.IDs, decls map[int
 func reopen(c *vh.Case, t *chainx.Tree, ids *c02.IDs, decls map[int]*c02.Decl, orig *c02.Rig, s *snapshot, kind, dir string,
 	sched [][]int, finalTip types.ChainIndex, finalState []byte, finalID int, tipsSeen map[string]bool) {
 	where := fmt.Sprintf("commit %d (batch %d, %d store ops, mid-reorg=%v, %s)", s.n, s.batch, s.ops, s.mid, s.tip)
+	if s.crash {
+		where = fmt.Sprintf("stop after %d store ops in batch %d, between commits (committed image found altered; last commit %d, %s)", s.ops, s.batch, s.n, s.tip)
+	}
+	defer debug.SetPanicOnFault(debug.SetPanicOnFault(true))
 	defer func() {
 		if p := recover(); p != nil {
 			c.Oracle("reopen-panic", "%s: reopening / auditing / catching up panicked: %v", where, p)
@@ -290,7 +333,7 @@ func reopen(c *vh.Case, t *chainx.Tree, ids *c02.IDs, decls map[int]*c02.Decl, o
 	// rejected the first time is accepted once its parent is stored)
 	for i := from; i < len(sched); i++ {
 		if res := rig2.Submit(sched[i]); res == "panic" {
-			c2.Oracle("catchup-panic", "%s: AddBlocks panicked while resubmitting batch %d", where, i)
+			c2.Oracle("catchup-panic", "%s: AddBlocks panicked while resubmitting batch %d: %s", where, i, rig2.PanicMsg)
 			break
 		}
 	}
@@ -333,6 +376,9 @@ func reopen(c *vh.Case, t *chainx.Tree, ids *c02.IDs, decls map[int]*c02.Decl, o
 }
 
 func Run(r *vh.Run) {
+	// memory faults of the real code (a write into bbolt's read-only mmap) become panics, which
+	// the per-call recovers turn into oracle failures naming the commit point / history
+	defer debug.SetPanicOnFault(debug.SetPanicOnFault(true))
 	r.Rule = "a case = one fork history (generator of C02: all element-changing transaction kinds, reorgs across the v2 heights, corrupted siblings causing failed-and-rolled-back reorgs) run on MemDB, CacheDB(MemDB) or a Bolt file with VerifForceFlushNext armed before every store operation (every block boundary of every reorg is a commit point; a second mode arms a random half); every commit point (all of them up to the tier's cap, sampled above) is reopened with NewDBStore+NewManager, audited against a linear twin and caught up by resubmitting the batches from the interrupted one; non-trivial = at least one reopened commit point lies inside a multi-block reorg; distinct = distinct op lists"
 	rng := vh.NewRNG(r.Seed).Fork() // NewRNG(s) and NewRNG(s+1) are one step apart; Fork decorrelates the seeds
 	trees := r.Pick(18, 400)
